@@ -434,7 +434,10 @@ class Authorization(Endpoint):
 
     def verify_response_type(self, request: Union[Message, dict], cinfo: dict) -> bool:
         # Checking response types
-        _registered = [set(rt.split(" ")) for rt in cinfo.get("response_types_supported", [])]
+        # A dynamically registered client has 'response_types', that is the name of the
+        # client metadata parameter
+        _response_types = cinfo.get("response_types_supported") or cinfo.get("response_types", [])
+        _registered = [set(rt.split(" ")) for rt in _response_types]
         if not _registered:
             # If no response_type is registered by the client then we'll use code.
             _registered = [{"code"}]
